@@ -79,7 +79,7 @@ func checkOnceBubble(c OnceCase) error {
 		}
 		fillerCons := map[int]int{}
 		nextFiller := 1000
-		oc := syncutil.NewOnceConstructor(func(k int) string {
+		construct := func(k int) string {
 			if k >= 1000 {
 				// Filler keys: constructed at once, no gate.
 				mu.Lock()
@@ -93,7 +93,16 @@ func checkOnceBubble(c OnceCase) error {
 			mu.Unlock()
 			<-gates[k]
 			return fmt.Sprintf("tok-%d-%d", k, n)
-		})
+		}
+		// The key type is int, or (AnyKeys) an interface whose dynamic values
+		// are distinct keys that print alike.
+		var get func(k int) string
+		if c.AnyKeys == 0 {
+			get = syncutil.NewOnceConstructor(construct).Get
+		} else {
+			oc := syncutil.NewOnceConstructor(func(k any) string { return construct(anyKeyIndex(c.AnyKeys, k)) })
+			get = func(k int) string { return oc.Get(anyKey(c.AnyKeys, k)) }
+		}
 		n := len(c.Keys)
 		done := make([]bool, n)
 		progress := make([]int, n) // number of Gets completed
@@ -113,7 +122,7 @@ func checkOnceBubble(c OnceCase) error {
 				go func() {
 					defer wg.Done()
 					for _, k := range c.Keys[i] {
-						r := oc.Get(k)
+						r := get(k)
 						mu.Lock()
 						results[k] = append(results[k], r)
 						progress[i]++
@@ -134,12 +143,12 @@ func checkOnceBubble(c OnceCase) error {
 				for j := 0; j < a.Arg; j++ {
 					k := nextFiller
 					nextFiller++
-					if got := oc.Get(k); got != fmt.Sprintf("filler-%d", k) {
+					if got := get(k); got != fmt.Sprintf("filler-%d", k) {
 						v.fail("Get(%d) returned %q", k, got)
 					}
 					if j%7 == 0 {
 						// Ask again for an earlier filler key.
-						if got := oc.Get(1000 + j/2); got != fmt.Sprintf("filler-%d", 1000+j/2) {
+						if got := get(1000 + j/2); got != fmt.Sprintf("filler-%d", 1000+j/2) {
 							v.fail("Get(%d) returned %q", 1000+j/2, got)
 						}
 					}
@@ -210,6 +219,9 @@ func checkOnceBubble(c OnceCase) error {
 			break
 		}
 	}
+	if c.AnyKeys != 0 && c.K >= 2 {
+		vp.Class("once:interface-keys-that-print-alike")
+	}
 	if concurrentArrivals {
 		vp.Class("once:>=2-callers-arrived-during-construction")
 		vp.NonTrivialStr("c17.once-bubble", fmt.Sprintf("%+v", c))
@@ -218,6 +230,35 @@ func checkOnceBubble(c OnceCase) error {
 		vp.Class("once:no-concurrent-arrival")
 	}
 	return v.err()
+}
+
+type pairKey struct{ A, B string }
+
+// lookAlikes are families of distinct keys of an interface key type whose
+// printed forms coincide.
+var lookAlikes = [][]any{
+	{1, "1", int64(1)},
+	{pairKey{"a b", "c"}, pairKey{"a", "b c"}, "{a b c}"},
+	{uint8(7), int8(7), rune(7)},
+}
+
+func anyKey(mode, k int) any {
+	if k >= 1000 {
+		return k
+	}
+	return lookAlikes[(mode-1)%len(lookAlikes)][k%3]
+}
+
+func anyKeyIndex(mode int, key any) int {
+	if i, ok := key.(int); ok && i >= 1000 {
+		return i
+	}
+	for i, x := range lookAlikes[(mode-1)%len(lookAlikes)] {
+		if x == key {
+			return i
+		}
+	}
+	panic(fmt.Sprintf("harness: the constructor was called with a key that was never requested: %#v", key))
 }
 
 func closedGates(open []bool) (closed []int) {
@@ -233,6 +274,9 @@ var onceBubbleProp = vp.Register(vp.Prop[OnceCase]{
 	Kind: "c17.once-bubble", Base: 10000,
 	Gen: func(t *rapid.T) OnceCase {
 		c := OnceCase{K: rapid.IntRange(1, 3).Draw(t, "keys")}
+		if rapid.IntRange(0, 3).Draw(t, "anykeys") == 0 {
+			c.AnyKeys = rapid.IntRange(1, 3).Draw(t, "family")
+		}
 		n := rapid.IntRange(1, 8).Draw(t, "goroutines")
 		var acts []Act
 		for i := 0; i < n; i++ {
